@@ -24,7 +24,7 @@ func init() {
 		Phases: func(tier string, seed int64) []Phase {
 			return []Phase{{Name: "histories-plain", Run: func(c *Ctx) { c20Run(c, "plain") }}, {Name: "histories-tls", Run: func(c *Ctx) { c20Run(c, "tls") }}}
 		},
-		MinObserved: []string{"steps", "searches_compared", "op/add", "op/modify", "op/delete", "op/set", "searches_with_odd_parameters", "searches_based_at_a_dn_below_the_groups_base", "searches_for_dns_with_parentheses", "setusers_with_the_same_objects_again"},
+		MinObserved: []string{"steps", "searches_compared", "op/add", "op/modify", "op/delete", "op/set", "searches_with_odd_parameters", "searches_based_at_a_dn_below_the_groups_base", "searches_for_dns_with_parentheses", "setusers_with_the_same_objects_again", "histories_steps_with_token_groups_configured"},
 	})
 }
 
@@ -196,6 +196,7 @@ func c20Run(c *Ctx, transport string) {
 func c20History(c *Ctx, td interface {
 	SetUsers(...*gldap.Entry)
 	SetGroups(...*gldap.Entry)
+	SetTokenGroups(map[string][]*gldap.Entry)
 }, clients []*c20Client, r *Rand, transport string, h int) bool {
 	model := &c20Model{Users: map[string]*c20Entry{}, Groups: map[string]*c20Entry{}}
 	useHelpers := r.Chance(35)
@@ -249,6 +250,14 @@ func c20History(c *Ctx, td interface {
 			td.SetUsers(objs...)
 		}
 		td.SetGroups(model.entries(false)...)
+		// token groups (an unrelated feature of the directory) are configured in some histories: they have their own
+		// kind of search and must leave every other search alone
+		if r.Chance(40) {
+			td.SetTokenGroups(map[string][]*gldap.Entry{"S-1-5-21-1": {gldap.NewEntry("cn=tg,ou=groups,dc=example,dc=org", map[string][]string{"cn": {"tg"}})}})
+			c.Count("histories_steps_with_token_groups_configured", 1)
+		} else {
+			td.SetTokenGroups(nil)
+		}
 	}
 	reset()
 	// reSet hands the directory the SAME entry objects as the last SetUsers call did. The directory's contents are shared
